@@ -3,6 +3,7 @@ Helper lemmas for the library properties C12, C13, C14 (`RuschmProofs/C12.lean` 
 Vocabulary: `RuschmSpec/Lib.lean`.
 -/
 import RuschmSpec.Lib
+import RuschmProofs.StoreLemmas
 
 namespace Ruschm
 
@@ -930,4 +931,212 @@ theorem attempts_ok (g : Graph) (hist : List (Nat × Name)) (st : LState) (h : C
     rw [load_eq_dfs']
 
 end Loader
+namespace Interp
+
+/-! ## C13: the export list -/
+
+theorem lookup_assocInsert {α} (l : List (String × α)) (k : String) (v : α) (y : String) :
+    (assocInsert l k v).lookup y = if y = k then some v else l.lookup y := by
+  induction l with
+  | nil =>
+    by_cases h : y = k
+    · subst h; simp [assocInsert, List.lookup_cons]
+    · have : (y == k) = false := by simpa using h
+      simp [assocInsert, List.lookup_cons, this, h]
+  | cons p rest ih =>
+    obtain ⟨k', v'⟩ := p
+    simp only [assocInsert]
+    by_cases hk : k' = k
+    · subst hk
+      by_cases hy : y = k'
+      · subst hy; simp [List.lookup_cons]
+      · have : (y == k') = false := by simpa using hy
+        simp [List.lookup_cons, this, hy]
+    · simp only [hk, if_false, List.lookup_cons, ih]
+      by_cases hy : y = k'
+      · subst hy; simp [hk]
+      · have : (y == k') = false := by simpa using hy
+        simp [this]
+
+theorem names_assocInsert {α} (l : List (String × α)) (k : String) (v : α) :
+    (assocInsert l k v).map Prod.fst = if k ∈ l.map Prod.fst then l.map Prod.fst else l.map Prod.fst ++ [k] := by
+  induction l with
+  | nil => simp [assocInsert]
+  | cons p rest ih =>
+    obtain ⟨k', v'⟩ := p
+    simp only [assocInsert]
+    by_cases hk : k' = k
+    · subst hk; simp
+    · simp only [hk, if_false, List.map_cons, ih, List.mem_cons, Ne.symm hk, false_or]
+      split <;> simp
+
+theorem nodup_assocInsert {α} (l : List (String × α)) (k : String) (v : α)
+    (h : (l.map Prod.fst).Nodup) : ((assocInsert l k v).map Prod.fst).Nodup := by
+  rw [names_assocInsert]
+  split
+  · exact h
+  · rename_i hk
+    rw [List.nodup_append]
+    exact ⟨h, by simp, by intro a ha b hb; simp at hb; subst hb; rintro rfl; exact hk ha⟩
+
+theorem lookup_isSome_iff {α} (l : List (String × α)) (x : String) :
+    (l.lookup x).isSome ↔ x ∈ l.map Prod.fst := by
+  induction l with
+  | nil => simp
+  | cons p rest ih =>
+    obtain ⟨k, v⟩ := p
+    by_cases h : x = k
+    · subst h; simp [List.lookup_cons]
+    · have : (x == k) = false := by simpa using h
+      simp [List.lookup_cons, this, ih, h]
+
+/-- one step of the export loop of `evalLibraryDef` -/
+def exportStep (look : String → Option Value) (acc : List (String × Value)) (ex : ExportSpec) :
+    Except SErr (List (String × Value)) :=
+  match look ex.internal with
+  | some v => .ok (assocInsert acc ex.external v)
+  | none => .error (.unbound, match ex with | .direct _ l => l | .rename _ _ l => l)
+
+theorem exportFold_spec (look : String → Option Value) :
+    ∀ (specs : List ExportSpec) (acc defs : List (String × Value)),
+    specs.foldlM (exportStep look) acc = .ok defs →
+    (∀ x, defs.lookup x = match S.exportFor specs x with
+      | some sp => look sp.internal
+      | none => acc.lookup x) ∧
+    (∀ sp ∈ specs, (look sp.internal).isSome) ∧
+    ((acc.map Prod.fst).Nodup → (defs.map Prod.fst).Nodup) := by
+  intro specs
+  induction specs with
+  | nil =>
+    intro acc defs h
+    simp only [List.foldlM_nil, pure, Except.pure, Except.ok.injEq] at h
+    subst h
+    exact ⟨fun x => by simp [S.exportFor], by simp, id⟩
+  | cons sp rest ih =>
+    intro acc defs h
+    rw [List.foldlM_cons] at h
+    cases hl : look sp.internal with
+    | none => simp [exportStep, hl, bind, Except.bind] at h
+    | some v =>
+      simp only [exportStep, hl, bind, Except.bind] at h
+      obtain ⟨h1, h2, h3⟩ := ih _ _ h
+      refine ⟨fun x => ?_, ?_, fun hn => h3 (nodup_assocInsert _ _ _ hn)⟩
+      · rw [h1 x]
+        simp only [S.exportFor, List.reverse_cons, List.find?_append]
+        cases hf : List.find? (fun sp => sp.external == x) rest.reverse with
+        | some sp' => simp
+        | none =>
+          simp only [Option.none_or, lookup_assocInsert, List.find?_cons, List.find?_nil]
+          by_cases hx : sp.external = x
+          · simp [hx, hl]
+          · have : (sp.external == x) = false := by simpa using hx
+            simp [this, Ne.symm hx]
+      · intro sp' hsp'
+        rcases List.mem_cons.1 hsp' with rfl | hm
+        · simp [hl]
+        · exact h2 sp' hm
+
+
+theorem evalLibraryDef_succ_eq (fuel : Nat) (st : State) (decls : List LibDecl) :
+    evalLibraryDef (fuel + 1) st decls =
+      match evalLibDecls fuel { st with store := (st.store.newFrame none).2 } st.store.frames.size decls [] with
+      | (.error e, st') => (.error e, st')
+      | (.ok exports, st') =>
+        (exports.foldlM (exportStep (st'.store.lookup st.store.frames.size)) [], st') := by
+  rw [evalLibraryDef]
+  simp only [Store.newFrame]
+  generalize evalLibDecls fuel _ _ decls [] = res
+  obtain ⟨r, st'⟩ := res
+  cases r with
+  | error e => rfl
+  | ok exports =>
+    simp only
+    congr 2
+    funext acc ex
+    cases ex <;> simp only [exportStep, ExportSpec.internal, ExportSpec.external] <;> split <;> simp_all
+
+theorem evalLibDecls_exports : ∀ (decls : List LibDecl) (fuel : Nat) (st : State) (ρ : Nat)
+    (acc exports : List ExportSpec) (st' : State),
+    evalLibDecls fuel st ρ decls acc = (.ok exports, st') → exports = acc ++ S.exportSpecs decls := by
+  intro decls
+  induction decls with
+  | nil =>
+    intro fuel st ρ acc exports st' h
+    cases fuel with
+    | zero => rw [evalLibDecls] at h; cases h
+    | succ fuel => rw [evalLibDecls] at h; cases h; simp [S.exportSpecs]
+  | cons d ds ih =>
+    intro fuel st ρ acc exports st' h
+    cases fuel with
+    | zero => rw [evalLibDecls] at h; cases h
+    | succ fuel =>
+      cases d <;> rw [evalLibDecls] at h
+      · split at h
+        · cases h
+        · simpa [S.exportSpecs] using ih _ _ _ _ _ _ h
+      · simpa [S.exportSpecs] using ih _ _ _ _ _ _ h
+      · split at h
+        · cases h
+        · simpa [S.exportSpecs] using ih _ _ _ _ _ _ h
+
+end Interp
+
+namespace Lib
+
+/-! ## C13: lookups only see the frames of their chain -/
+
+theorem find?_congr' {α} {l : List α} {p q : α → Bool} (h : ∀ a ∈ l, p a = q a) :
+    l.find? p = l.find? q := by
+  induction l with
+  | nil => rfl
+  | cons a l ih =>
+    simp only [List.find?_cons, h a (by simp)]
+    rw [ih (fun b hb => h b (by simp [hb]))]
+
+theorem lookup_congr_chain {σ σ' : Store} {ρ : Nat} {x : String} (hc : σ'.chain ρ = σ.chain ρ)
+    (hb : ∀ i ∈ σ.chain ρ, σ'.binding i x = σ.binding i x) : σ'.lookup ρ x = σ.lookup ρ x := by
+  rw [Store.lookup_eq_bind, Store.lookup_eq_bind, Store.resolve_eq_find, Store.resolve_eq_find, hc]
+  have hfind : (σ.chain ρ).find? (fun r => σ'.definesAt r x) = (σ.chain ρ).find? (fun r => σ.definesAt r x) := by
+    apply find?_congr'
+    intro i hi
+    simp only [Store.definesAt, hb i hi]
+  rw [hfind]
+  cases hf : (σ.chain ρ).find? (fun r => σ.definesAt r x) with
+  | none => rfl
+  | some r => exact hb r (List.mem_of_find?_eq_some hf)
+
+theorem lookup_define_off_chain (σ : Store) {r ρ : Nat} (k : String) (v : Value) (x : String)
+    (h : r ∉ σ.chain ρ) : (σ.define r k v).lookup ρ x = σ.lookup ρ x := by
+  apply lookup_congr_chain (Store.chain_define σ r k v ρ)
+  intro i hi
+  rw [Store.binding_define]
+  have : i ≠ r := by rintro rfl; exact h hi
+  simp [this]
+
+theorem resolve_mem_chain {σ : Store} {ρ r : Nat} {k : String} (h : σ.resolve ρ k = some r) :
+    r ∈ σ.chain ρ := by
+  rw [Store.resolve_eq_find] at h
+  exact List.mem_of_find?_eq_some h
+
+theorem self_mem_chain {σ : Store} {ρ : Nat} (h : ρ < σ.frames.size) : ρ ∈ σ.chain ρ := by
+  unfold Store.chain Store.chainAux
+  have : σ.frames[ρ]? = some σ.frames[ρ] := by simp [h]
+  simp [this]
+
+end Lib
+
+namespace Interp
+
+theorem storeRel_grows : StoreRel Store.Grows where
+  refl := Store.Grows.refl
+  trans := Store.Grows.trans
+  expr := by
+    intro fuel σ ρ e r σ' h
+    have := Eval.evalExpr_grows fuel σ ρ e
+    rw [h] at this
+    exact this
+  define := Store.grows_define
+  newFrame := Store.grows_newFrame
+
+end Interp
 end Ruschm
